@@ -24,7 +24,7 @@ from dsim.reffv import RefFV
 
 EXC_TYPES = ["RuntimeError", "ValueError", "LinAlgError", "MemoryError", "FloatingPointError",
              "ZeroDivisionError", "NotImplementedError", "ArithmeticError"]
-SITES = ["entry", "backend", "setup", "post"]
+SITES = ["entry", "backend", "setup", "post", "bookkeeping"]
 L1 = {"raviart_thomas": "RAVIART_THOMAS", "constant_subcell_projection": "CONSTANT_SUBCELL_PROJECTION",
       "constant_cell_projection": "CONSTANT_CELL_PROJECTION"}
 MOB = ["CELL_BASED", "CELL_BASED_ARITHMETIC", "CELL_BASED_HARMONIC", "SUBCELL_BASED", "FACE_BASED"]
@@ -108,6 +108,7 @@ class SolveSeam:
         self.fired = []
         self.residuals = []  # (entry index, |Ax-b|_inf)
         self.rel_residuals = []  # |Ax-b|_inf / |b|_inf
+        self.max_b = 0.0
         self.setups = 0
         self.reused = 0
         self.amplitude = 0.0
@@ -139,6 +140,22 @@ class SolveSeam:
                 obj.linear_solver = _SolverProxy(obj.linear_solver, seam)
             setattr(obj, nm, setup)
 
+        # late site: the iteration's bookkeeping (after the iterate and the distance were updated) fails
+        if hasattr(obj, "_analyze_timings"):
+            orig_at = obj._analyze_timings
+            self.bookkeeping_calls = 0
+
+            def _analyze_timings(timings):
+                f = seam.fault
+                if f and f["site"] == "bookkeeping" and not seam.fired:
+                    seam.bookkeeping_calls += 1
+                    if seam.bookkeeping_calls == f["occurrence"]:
+                        seam.fired.append(("bookkeeping", f["occurrence"], f["exc"]))
+                        e = make_exc(f["exc"])
+                        e._dsim_injected = True
+                        raise e
+                return orig_at(timings)
+            obj._analyze_timings = _analyze_timings
         orig_solve = obj._solve
         self.captured = None
 
@@ -153,7 +170,9 @@ class SolveSeam:
         self.fault = fault
         self.entries, self.current = 0, -1
         self.fired, self.residuals, self.rel_residuals = [], [], []
+        self.max_b = 0.0
         self.setups = self.reused = 0
+        self.bookkeeping_calls = 0
         self.amplitude = 0.0
         self.captured = None
 
@@ -191,6 +210,7 @@ class SolveSeam:
             r = float(np.max(np.abs(A @ x - b))) if np.all(np.isfinite(x)) else float("inf")
             nb = float(np.max(np.abs(b)))
             self.rel_residuals.append(r / nb if nb > 0 else (0.0 if r == 0 else float("inf")))
+            self.max_b = max(self.max_b, nb)
         except Exception:
             r = float("nan")
         self.residuals.append((self.current, r))
@@ -402,6 +422,12 @@ def check_result(cfg, rr: RunResult, out: Outcome, tag: str, step: int, fault=No
                and any(rr_ > 1e-3 for rr_ in seam.rel_residuals if rr_ == rr_))
     if stalled:
         out.counters["probe:linear-solver-stalled-unconverged"] += 1
+    if cfg["linear_solver"] != "direct" and cfg.get("ls_options", {}).get("maxiter", 100) > 5 and seam.rel_residuals:
+        fin = [x for x in seam.rel_residuals if x == x and x != float("inf")]
+        if fin:
+            key = "max_abs_linear_residual_over_tol_times_largest_rhs(%s)" % cfg["linear_solver"]
+            ra = max([r for _, r in seam.residuals if r == r and r != float("inf")] + [0.0])
+            out.extra[key] = max(out.extra.get(key, 0.0), ra / (max(iterative_tol(cfg), 1e-300) * max(seam.max_b, 1e-300)))
     rmax = max([r for _, r in seam.residuals if r == r] + [0.0])
     if cfg["linear_solver"] == "direct":
         # the precision of a direct solve is round-off: a large measured residual (e.g. a stale factorisation
@@ -699,7 +725,11 @@ class C04Engine(Engine):
             out.counters[f"fault:exc-{f['exc']}"] += 1
             if rr.ret is None:
                 in_loop = 1 <= f["occurrence"] <= (n - 1 if cfg["method"] == "newton" else n - 2)
-                if in_loop and getattr(rr, "exc_injected", False):
+                if f["site"] == "bookkeeping":
+                    # the bookkeeping routine is also called once after the loop, outside the handler: an escape from
+                    # there is not an inner step failing; nothing is claimed
+                    out.counters["probe:late-fault-escaped-after-loop"] += 1
+                elif in_loop and getattr(rr, "exc_injected", False):
                     # an inner step failed inside the iteration and the failure itself escaped from the call: a
                     # (non-converged) result must still be returned
                     out.violate("C04.R", f"inner-failure-escapes:{rr.exc}", step, fault=f, config=cfg,
@@ -722,6 +752,10 @@ class C04Engine(Engine):
                                                  cfg["mobility_mode"], bool(cfg.get("aa_depth")), bool(cfg.get("weight")),
                                                  f["site"], f["occurrence"], f["exc"]))))
             if not obs["finite"]:
+                continue
+            if f["site"] == "bookkeeping":
+                # the failing iteration had already produced its iterate and distance: M, D, A, S apply, V has no reference
+                out.counters["probe:late-failure-result-checked"] += 1
                 continue
             # ---- V: last valid iterate = fault-free run truncated before the failed iteration
             j = f["occurrence"] - 1  # loop iteration in which the solve failed
